@@ -57,6 +57,10 @@ Definition usable_samples (raw : list rsample) (has_status : bool) (off : option
 Definition decide_categorical_src (p : option bool) (is_float : bool) : bool :=
   match p with Some b => b | None => c10_categ_default is_float end.
 
+(* SPEC of the decision (what SensorCache.get documents): an explicit property wins, otherwise non-float = categorical *)
+Definition spec_categorical (p : option bool) (is_float : bool) : bool :=
+  match p with Some b => b | None => negb is_float end.
+
 Definition extract_cat_src (raw : list rsample) (has_status : bool) (off : option Z) (dflt : Z) (mids : list Z) (P : Z)
     (tr : option (list (Z * Z))) (init : option Z) (greedy : list Z) (ar : option bool) : res cat :=
   let s := usable_samples raw has_status off init dflt in
@@ -96,7 +100,7 @@ Definition to_optmask (x : sx) : option (list bool) :=
   match x with L [m] => Some (to_bools m) | _ => None end.
 
 (* (raw-samples has_status off? dflt mids P tr init greedy ar? keep? categorical? is_float) ->
-   (categorical-decision  usable-samples  (ok events indices unique per_dump)  (ok selected)  (ok rule)  (ok rule as coded)) *)
+   ((categorical-decision-as-coded spec-of-the-decision)  usable-samples  (ok events indices unique per_dump)  (ok selected)  (ok rule)  (ok rule as coded)) *)
 Definition wire_103 (x : sx) : sx :=
   match x with
   | L [raw; hs; off; I dflt; mids; I P; tr; init; greedy; ar; keep; categ; isf] =>
@@ -112,7 +116,8 @@ Definition wire_103 (x : sx) : sx :=
                end in
       let sp := fun i => match spec_per_dump (map fst s) (map snd s) ends P tr i greedy with
                          | Some l => L [I 1; of_Zs l] | None => L [I 0] end in
-      L [of_bool (decide_categorical_src (to_optbool categ) (to_bool isf));
+      L [L [of_bool (decide_categorical_src (to_optbool categ) (to_bool isf));
+            of_bool (spec_categorical (to_optbool categ) (to_bool isf))];
          L (map (fun p => L [I (fst p); I (snd p)]) s);
          m; sp init; sp (init_as_coded (map fst s) ends P init)]
   | _ => sx_err
